@@ -170,7 +170,8 @@ impl Rich {
         w.must("token badge", &ix);
         // trades so that fees / rewards / protocol fees are owed
         w.advance_clock(1000);
-        let amt: u64 = 1u64 << spec.swap_bits.clamp(8, 40);
+        // small enough to keep the price inside the positions' range (the catalog's baseline calls need liquidity in range)
+        let amt: u64 = (1u64 << spec.swap_bits.clamp(8, 40)).min((liq >> 11) as u64).max(16);
         for p in [p0, p1, pa] {
             for a_to_b in [true, false] {
                 let sp = SwapParams { amount: amt, threshold: 0, sqrt_price_limit: 0, exact_in: true, a_to_b };
